@@ -77,6 +77,8 @@ func c03Stmts(p c03Params) []*Stmt {
 			upd("v", "second", 2),     // 10 same row again
 			upd("v", "own", 10),       // 11 in-place update of a row the same transaction may have inserted
 			upd("k", int32(31), 10),   // 12 key change of a row the same transaction may have inserted
+			// 13 two-column SET: the key is named but keeps its value while the other column shrinks (the row is relocated)
+			&Stmt{Kind: "update", Table: "t", Set: []SetItem{{"k", int32(3)}, {"v", ""}}, Where: wh(3)},
 		)
 	}
 	st = append(st, del(10)) // delete of a row the same transaction may have inserted
